@@ -13,64 +13,81 @@ pub const fn must_cast(x: u64) -> f64 {
     f64::from_bits(x)
 }
 
-pub trait ArrayValue: ArrayCmp + Clone + Default + HashKey {}
+pub trait ArrayValue: ArrayCmp + Copy + Default + HashKey {}
 impl ArrayValue for f64 {}
 
-#[derive(Clone, Default, Debug)]
-pub struct Data<K>(pub Vec<K>);
+/// Element buffer without heap allocation (CBMC's allocator model is the dominant cost
+/// otherwise): at most 4 elements.
+#[derive(Clone, Copy, Debug)]
+pub struct Data<K> {
+    pub buf: [K; 4],
+    pub len: usize,
+}
+impl<K: Default> Default for Data<K> {
+    fn default() -> Self {
+        Data { buf: std::array::from_fn(|_| K::default()), len: 0 }
+    }
+}
 impl<K> Data<K> {
     pub fn as_mut_slice(&mut self) -> &mut [K] {
-        &mut self.0
+        &mut self.buf[..self.len]
     }
 }
 impl<K> std::ops::Deref for Data<K> {
     type Target = [K];
     fn deref(&self) -> &[K] {
-        &self.0
+        &self.buf[..self.len]
     }
 }
-#[derive(Clone, Default, Debug)]
+/// shape without heap allocation: rank <= 2
+#[derive(Clone, Copy, Debug, Default)]
+pub struct Shape {
+    pub dims: [usize; 2],
+    pub rank: usize,
+}
+impl PartialEq for Shape {
+    fn eq(&self, o: &Self) -> bool {
+        // field by field (a derived == on the array goes through memcmp, which CBMC unrolls bytewise)
+        self.rank == o.rank && self.dims[0] == o.dims[0] && self.dims[1] == o.dims[1]
+    }
+}
+impl Shape {
+    pub fn len(&self) -> usize {
+        self.rank
+    }
+}
+#[derive(Clone, Copy, Default, Debug)]
 pub struct Array<K> {
-    pub shape: Vec<usize>,
+    pub shape: Shape,
     pub data: Data<K>,
 }
-impl<K: Clone> Array<K> {
+impl<K> Array<K> {
     pub fn row_len(&self) -> usize {
-        let mut n = 1;
-        let mut i = 1;
-        while i < self.shape.len() {
-            n *= self.shape[i];
-            i += 1;
-        }
-        n
+        if self.shape.rank == 2 { self.shape.dims[1] } else { 1 }
     }
     pub fn row_count(&self) -> usize {
-        if self.shape.is_empty() { 1 } else { self.shape[0] }
+        if self.shape.rank == 0 { 1 } else { self.shape.dims[0] }
     }
 }
-pub fn list(v: Vec<f64>) -> Array<f64> {
-    Array { shape: vec![v.len()], data: Data(v) }
+pub fn list(v: &[f64]) -> Array<f64> {
+    let mut buf = [0.0; 4];
+    let mut i = 0;
+    while i < v.len() {
+        buf[i] = v[i];
+        i += 1;
+    }
+    Array { shape: Shape { dims: [v.len(), 0], rank: 1 }, data: Data { buf, len: v.len() } }
 }
 pub fn scalar(x: f64) -> Array<f64> {
-    Array { shape: vec![], data: Data(vec![x]) }
+    Array { shape: Shape { dims: [0, 0], rank: 0 }, data: Data { buf: [x, 0.0, 0.0, 0.0], len: 1 } }
 }
 
-/// start slot per key class, set by the harness: (key bits, slot)
-pub static mut STARTS: [(u64, usize); 8] = [(0, 0); 8];
-pub static mut NSTARTS: usize = 0;
-/// Arbitrary fixed hash: looks the key up (by `array_eq`) in the table the harness declared.
-pub fn hash_start<T: ArrayValue>(arr: &Array<T>, capacity: usize) -> usize {
-    let k = arr.data[0].key_f64();
-    let mut i = 0;
-    unsafe {
-        while i < NSTARTS {
-            if f64::from_bits(STARTS[i].0).array_eq(&k) {
-                return STARTS[i].1 % capacity.max(1);
-            }
-            i += 1;
-        }
-    }
-    0
+/// Start slot of the QUERY key, set by the harness.  The probe loops call `hash_start`
+/// only on the key they are asked about; the start slots of the keys already in the
+/// table enter through the representation invariant (`reachable`) instead.
+pub static mut QSTART: usize = 0;
+pub fn hash_start<T: ArrayValue>(_arr: &Array<T>, capacity: usize) -> usize {
+    unsafe { QSTART % capacity.max(1) }
 }
 pub trait HashKey {
     fn key_f64(&self) -> f64;
@@ -106,8 +123,8 @@ impl Value {
     pub fn row(&self, i: usize) -> Value {
         match self {
             Value::Num(a) => {
-                let rl = a.row_len();
-                Value::Num(Array { shape: a.shape[1..].to_vec(), data: Data(a.data[i * rl..(i + 1) * rl].to_vec()) })
+                // rows of a list are scalars (only scalar keys are modelled)
+                Value::Num(scalar(a.data[i]))
             }
             Value::Box(n) => match *n {},
         }
@@ -152,11 +169,12 @@ impl MapItem for Value {
 #[derive(Clone, Debug)]
 pub struct MapKeys {
     pub keys: Value,
-    pub indices: Vec<usize>,
+    pub indices: [usize; 4],
+    pub cap: usize,
     pub len: usize,
 }
 impl MapKeys {
     pub fn capacity(&self) -> usize {
-        self.indices.len()
+        self.cap
     }
 }
